@@ -186,7 +186,7 @@ func report(w *World, pc *PropConfig, tier string, seed int, record, partial boo
 		isNew := expected != nil && !expected[r.Name]
 		// an obligation generated from a contract clause is a violation whenever it fails, even under a
 		// new occurrence index; a brand-new generated safety obligation that is merely undecided is not
-		clauseTied := !strings.HasPrefix(r.Kind, "safety.") && !strings.HasPrefix(r.Kind, "overflow.")
+		clauseTied := !strings.HasPrefix(r.Kind, "safety.") // overflow obligations exist only where the contract says `check overflow`
 		if r.Status == "sat" || !isNew || clauseTied {
 			failed = append(failed, r)
 		} else {
